@@ -630,6 +630,27 @@ def special_C18(tier, seed, harness, work):
     return {"coverage": cov, "violations": viol}
 
 
+def special_C20(tier, seed, harness, work):
+    """generic.Resource / ecs.AddResource / GetResource against the ID-based resource calls (fixed scenarios of the generic arm)"""
+    cov = {}
+    viol = []
+    for tags in ("verif", "verif,tiny"):
+        ok, log, hb = vlib.build_harness(tags)
+        if not ok:
+            rp = os.path.join(VERIF, "replays", "C20-build.txt")
+            open(rp, "w").write("harness does not build with tags %s:\n%s" % (tags, log))
+            return {"coverage": cov, "violations": [(rp, "no-failing-input-found")]}
+        p = subprocess.run([hb, "genericfixed"], stdout=subprocess.PIPE, stderr=subprocess.STDOUT, timeout=600)
+        out = p.stdout.decode(errors="replace")
+        cov["generic_resource_" + tags.replace(",", "_")] = out.strip().split("\n")[-1][:300]
+        if p.returncode != 0:
+            rp = os.path.join(VERIF, "replays", "C20-generic-%s.txt" % tags.replace(",", "-"))
+            open(rp, "w").write("# C20: a resource read through generic.Resource / ecs.GetResource differs from the value stored for its id (build tags %s)\n# re-run: /verif/harness/bin/harness-%s genericfixed\n%s\n" % (tags, tags.replace(",", "-"), out[-8000:]))
+            viol.append((rp, ""))
+            break
+    return {"coverage": cov, "violations": viol}
+
+
 def search_C13(work, reason):
     """the no-map-iteration fact broke: look for an operation file whose re-execution differs"""
     ok, log, harness = vlib.build_harness("verif")
